@@ -32,16 +32,18 @@ func TestSynthetic(t *testing.T) {
 		if strings.HasPrefix(f, "p.items.") {
 			name = "okItems.[]"
 		}
+		good := v.OK && len(v.Split) == 0
 		if old, ok := verdict[name]; ok {
-			verdict[name] = old && v.OK
+			verdict[name] = old && good
 		} else {
-			verdict[name] = v.OK
+			verdict[name] = good
 		}
 	}
 	want := map[string]bool{
 		"okCount": true, "okRW": true, "okDeferOrder": true, "okEarly": true, "okHelper.n": true, "okItems": true, "okItems.[]": true, "okViaLog": true,
 		"badRace": false, "badBranch": false, "badAfterUnlock": false, "badGo": false, "badDeferOrder": false, "badRW": false,
 		"badClosure": false, "badLoop": false, "badSwitch": false, "badHelper.n": false,
+		"badSplit": false, "badSplitCall": false, "badStale": false, "okRecheck": true, "okBlind": true,
 	}
 	for k, w := range want {
 		got, ok := verdict[k]
@@ -56,6 +58,15 @@ func TestSynthetic(t *testing.T) {
 	for k := range verdict {
 		if _, ok := want[k]; !ok {
 			t.Errorf("unexpected variable %s", k)
+		}
+	}
+	for _, v := range out.Vars {
+		if strings.HasSuffix(v.Name, ".okCount") && !v.Counter {
+			// okCount is written by ++ and by the blind store of Reset(): not a pure counter
+			continue
+		}
+		if strings.HasSuffix(v.Name, ".okEarly") && !v.Counter {
+			t.Errorf("okEarly is only ever incremented: want counter")
 		}
 	}
 	imm := strings.Join(out.Immutable, " ")
